@@ -565,10 +565,10 @@ func gepInstType(elemType, src types.Type, indices []value.Value) types.Type {
 			idx = getIndex(index)
 		default:
 			idx = gep.Index{HasVal: false}
-			// Check if index is of vector type.
-			if indexType, ok := index.Type().(*types.VectorType); ok {
-				idx.VectorLen = indexType.Len
-			}
+		}
+		// Check if index is of vector type.
+		if indexType, ok := index.Type().(*types.VectorType); ok {
+			idx.VectorLen = indexType.Len
 		}
 		idxs = append(idxs, idx)
 	}
